@@ -38,7 +38,8 @@ AxpyClass(sp, a2) == MulClass(sp, a2)
 SqClass(sp) == IF sp = "nan" THEN "nan" ELSE "pinf"
 \* ---- the finiteness tests, by class of the one unusual element (everything else normal, finite, non-zero) ----
 \* "sub" is a subnormal number: finite and not zero
-TestClasses == {"sub", "negsub", "zero", "negzero", "nan", "pinf", "ninf"}
-AllFinite(cl) == cl \in {"sub", "negsub", "zero", "negzero"}
-AllFiniteNonzero(cl) == cl \in {"sub", "negsub"}
+\* "huge" / "max": finite numbers whose square is not (1e200, the largest double)
+TestClasses == {"sub", "negsub", "zero", "negzero", "huge", "max", "nan", "pinf", "ninf"}
+AllFinite(cl) == cl \in {"sub", "negsub", "zero", "negzero", "huge", "max"}
+AllFiniteNonzero(cl) == cl \in {"sub", "negsub", "huge", "max"}
 ==============================================================================
